@@ -240,7 +240,7 @@ func (d *Decoder) skipObject(cls ClassDef) (interface{}, error) {
 	d.addDecoderRef(reflect.ValueOf(&struct{}{}))
 	for i := 0; i < len(cls.FieldName); i++ {
 		if _, err := d.ReadData(); err != nil {
-			return nil, newCodecError("skipObject", "failed to skip field '%s'", cls.FieldName[i], err)
+			return nil, newCodecError("skipObject", "failed to skip field '%s'", clipName(cls.FieldName[i]), err)
 		}
 	}
 	return nil, nil
@@ -318,21 +318,21 @@ func (d *Decoder) readObject(typ reflect.Type, cls ClassDef) (interface{}, error
 
 		// fmt.Printf("[%d]  >>>> start read field %s: %v, %v, %p\n", readObjectIndexCurr, fldName, vv.Type(), vv.Interface(), vv.Interface())
 		if err != nil {
-			hlog.Debugf("%s is not found, will skip type ->p %v", fldName, typ)
+			hlog.Debugf("%s is not found, will skip type ->p %v", clipName(fldName), typ)
 			// the value of the unknown field still has to be consumed
 			if err = d.skipValue(); err != nil {
-				return nil, newCodecError("readObject", "failed to skip field '%s'", fldName, err)
+				return nil, newCodecError("readObject", "failed to skip field '%s'", clipName(fldName), err)
 			}
 			continue
 		}
 		fldValue := st.Field(index)
 		if !fldValue.CanSet() {
-			return nil, newCodecError("readObject", "field %s can set", fldName)
+			return nil, newCodecError("readObject", "field %s can set", clipName(fldName))
 		}
 
 		err = d.readField(fldName, fldValue)
 		if err != nil {
-			return nil, newCodecError("readObject", "failed to decode field '%s'", fldName, err)
+			return nil, newCodecError("readObject", "failed to decode field '%s'", clipName(fldName), err)
 		}
 
 		// fmt.Printf("[%d]  <<<<<< end read field %s: %v, %v, %p\n", readObjectIndexCurr, fldName, vv.Type(), vv.Interface(), vv.Interface())
@@ -429,7 +429,7 @@ func (d *Decoder) readField(fldName string, fldValue reflect.Value) error {
 			return err
 		}
 	default:
-		return newCodecError("readField", "unsupported field: %s, type: %v, kind: %v", fldName, sourceValue.Type(), typ.Kind())
+		return newCodecError("readField", "unsupported field: %s, type: %v, kind: %v", clipName(fldName), sourceValue.Type(), typ.Kind())
 	}
 
 	return nil
